@@ -12,12 +12,16 @@ from .vlib import COQ, Check, hexs, unhex, with_timeout
 PID = "C01"
 CLAIM = dict(
     text="Coq theorems over an executable model of sansio.multipart.MultipartDecoder and the formparser loop "
-         "(matcher extension lemmas, search-position and hold-back invariants, buffer/part bounds, and chunk-independence "
-         "statements as far as proved - see coq/C01/Props.v), with the model compared event by event (including Data "
+         "(C01_chunk_independence: for every body the one-shot decoder accepts and EVERY chunking of it the parts are the "
+         "one-shot parts, payloads byte-exact, header blocks parsed identically; C01_formparser_read_schedule: every buffer size "
+         "and short-read pattern of the form parser is such a chunking; C01_decode_render: rendered bodies decode to their parts; "
+         "search-position and hold-back invariants; the arithmetic of the source regenerated and proved equal to the model's; "
+         "every other statement of the decoder and of the form parser's loop pinned as text, tools/pins/c01_decoder.txt), "
+         "with the model compared event by event (including Data "
          "fragmentation, state, buffer length and search position after every next_event) against the real decoder on "
          "structured and malformed bodies under one-shot, byte-at-a-time, random k-way and exhaustive 2-/3-way splits, "
          "and an impl-level oracle that compares parts across schedules and buffer sizes.",
-    note="Trusted: Coq kernel; translator tools/c01.py (constants, regex texts pinned); extraction + driver; hand-written matchers "
+    note="Trusted: Coq kernel; translator tools/c01.py (constants, regex texts, T2 arithmetic, statement-skeleton pin); extraction + driver; hand-written matchers "
          "for the four regexes validated differentially; header-block parsing (name/filename/headers from the raw block) is "
          "done by werkzeug's own _parse_headers/parse_options_header on the raw block the model emits (a function of the block).",
     design="6/C01")
